@@ -366,6 +366,7 @@ func c13EngineCtxBoost(ctx *Ctx) {
 		var cmds []vlib.Cmd
 		var db *database.Database
 		dbName := fmt.Sprintf("gen-%d-%d", ctx.Shard, d)
+		everywhere := ""
 		shipped := d%10 == 0 && ctx.Shard%4 == 0 // quick: 1 of 4 databases in 4 shards; thorough: 4 of 40
 		if shipped {
 			db = ctx.Shipped()
@@ -378,6 +379,18 @@ func c13EngineCtxBoost(ctx *Ctx) {
 				ctx.R.Path("large-databases", 1)
 			}
 			cmds0 := vlib.GenCommands(r, sp)
+			if ctx.G(d)%4 == 2 && len(cmds0) >= 5 {
+				// a word every entry carries (a team tag, a product name): as common, and as weak a piece of evidence, as a word can be
+				everywhere = []string{"runbook", "acme", "internal"}[r.Intn(3)]
+				for i := range cmds0 {
+					if i%2 == 0 {
+						cmds0[i].Tags = append(append([]string(nil), cmds0[i].Tags...), everywhere)
+					} else {
+						cmds0[i].Description += " " + everywhere
+					}
+				}
+				ctx.R.Path("databases-with-a-word-in-every-entry", 1)
+			}
 			if !ctx.R.Guard("C13", "LoadDatabase", dbName, func() { db = vlib.MustLoad(cmds0) }) {
 				continue
 			}
@@ -441,20 +454,33 @@ func c13EngineCtxBoost(ctx *Ctx) {
 				nq = 8
 			}
 		}
+		carry := c13CarryT{}
 		for qi := 0; qi < nq; qi++ {
 			q := c13Query(r, words)
 			if len(frequent) > 0 && qi%2 == 0 {
 				q = vlib.GenQuery(r, frequent, 2+r.Intn(3), 0)
 				ctx.R.Path("frequent-word-queries", 1)
 			}
+			typoQuery := false
+			if everywhere != "" && qi%3 == 1 && len(words) > 0 {
+				// the ubiquitous word next to a misspelt one (a word the database has never seen, a letter away from one it has)
+				w := words[r.Intn(len(words))]
+				if len(w) >= 4 && vlib.IsASCII(w) {
+					i := 1 + r.Intn(len(w)-2)
+					q = everywhere + " " + w[:i] + w[i+1:]
+					typoQuery = true
+					ctx.R.Path("queries-of-a-ubiquitous-and-a-misspelt-word", 1)
+				}
+			}
 			qTok := vlib.Tokenize(q)
+			c13Carry(ctx, r, db, cmds, &carry, q, dbName)
 
 			// ---- SearchUniversal, NLP off and on --------------------------------
 			for _, useNLP := range []bool{false, true} {
 				o := database.SearchOptions{
 					Limit:         n + 1, // nothing is cut, the NLP re-rank window covers every candidate
 					UseNLP:        useNLP,
-					UseFuzzy:      false,
+					UseFuzzy:      typoQuery || r.Intn(3) == 0, // (the application searches with typo tolerance on)
 					AllPlatforms:  r.Intn(8) != 0,
 					PipelineOnly:  r.Intn(10) == 0,
 					PipelineBoost: []float64{0, 0, 0, 2, 0.5}[r.Intn(5)],
@@ -592,6 +618,71 @@ func c13EngineCtxBoost(ctx *Ctx) {
 			}
 		}
 	}
+}
+
+// c13CarryT: one boost map object that a long-lived caller hands to request after request (as the CLI's context object would
+// in a session), with a private copy of what the caller put into it.
+type c13CarryT struct {
+	m    map[string]float64
+	orig map[string]float64
+	uses int
+}
+
+// c13Carry: the carried map first serves an enhanced request worded with the analysis vocabulary (action / target words), then
+// the request in hand; the latter must score exactly as with a fresh map holding what the caller put in - a request may not
+// leave boosts behind for the next one.
+func c13Carry(ctx *Ctx, r *rand.Rand, db *database.Database, cmds []vlib.Cmd, c *c13CarryT, q, dbName string) {
+	d := ctx.Dict()
+	if len(d.NLPWords) == 0 || len(cmds) == 0 {
+		return
+	}
+	if c.m == nil || c.uses > 6 {
+		c.m, c.orig, c.uses = map[string]float64{}, map[string]float64{}, 0
+		for i := 0; i < 1+r.Intn(2); i++ {
+			w := c13CtxWords[r.Intn(len(c13CtxWords))]
+			f := []float64{1.5, 2, 3}[r.Intn(3)]
+			c.m[w], c.orig[w] = f, f
+		}
+	}
+	c.uses++
+	nlpQ := d.NLPWords[r.Intn(len(d.NLPWords))]
+	if r.Intn(2) == 0 {
+		nlpQ += " " + d.NLPWords[r.Intn(len(d.NLPWords))]
+	}
+	n := len(cmds)
+	cs := map[string]interface{}{"db": dbName, "n": n, "earlier_enhanced_request": nlpQ, "query": q, "boosts_the_caller_put_in": c13BoostString(c.orig)}
+	ctx.R.Begin(cs)
+	ctx.R.Eval(1)
+	ctx.R.Guard("C13", "SearchUniversal/boost-map-carried-over", cs, func() {
+		db.SearchUniversal(nlpQ, database.SearchOptions{Limit: 5, UseNLP: true, AllPlatforms: true, ContextBoosts: c.m})
+		for _, qq := range []string{q, nlpQ} {
+			o := database.SearchOptions{Limit: n + 1, AllPlatforms: true}
+			fresh := map[string]float64{}
+			for k, v := range c.orig {
+				fresh[k] = v
+			}
+			o.ContextBoosts = c.m
+			a, _ := c13ScoreMap(vlib.Canon(cmds, db.SearchUniversal(qq, o)))
+			o.ContextBoosts = fresh
+			b, _ := c13ScoreMap(vlib.Canon(cmds, db.SearchUniversal(qq, o)))
+			ctx.R.Path("requests-with-a-carried-boost-map", 1)
+			for idx, sb := range b {
+				if sa, ok := a[idx]; !ok || !c13RelEq(sa, sb) {
+					ctx.R.Violate(vlib.Violation{Property: "C13", Clause: "unrelated-score-changed", Path: "SearchUniversal/boost-map-carried-over",
+						Detail: fmt.Sprintf("request %q with the boost map that served the enhanced request %q before scores entry %d %v; with a fresh map holding what the caller put in (%s) it scores %v; the carried map now reads %s; %s",
+							qq, nlpQ, idx, sa, c13BoostString(c.orig), sb, c13BoostString(c.m), c13EntryText(&cmds[idx])), Witness: cs})
+					c.m = nil // start over with a new map
+					return
+				}
+			}
+			if len(a) != len(b) {
+				ctx.R.Violate(vlib.Violation{Property: "C13", Clause: "candidates-changed", Path: "SearchUniversal/boost-map-carried-over",
+					Detail: fmt.Sprintf("request %q has %d candidates with the carried boost map and %d with a fresh map of the same content", qq, len(a), len(b)), Witness: cs})
+				c.m = nil
+				return
+			}
+		}
+	})
 }
 
 // ===========================================================================
